@@ -299,6 +299,12 @@ func r14guard(c *core.Ctx) {
 				c.Except(R, key, s.in.Pos(), reason)
 				continue
 			}
+			if why := structParamsClass(f, s); why != "" {
+				// the argued exception of the reference tree (parseField: structParams[i], structParams[present]) in moved code
+				excepted++
+				c.Except(R, key, s.in.Pos(), why)
+				continue
+			}
 			if !c14Baseline[base] {
 				// new or rewritten code: not one of the sites that were proved or argued on the reference tree
 				c.SoftUndecided("R14.guard: %s %s in %s is not provably in range by a guard form the rule knows, and it is not a site of the reference tree (new or restructured code): not decided", s.kind, clip(s.expr), shortFn(f))
@@ -310,6 +316,134 @@ func r14guard(c *core.Ctx) {
 	c.Sites(n)
 	c.Floor(R, n, 30)
 	c.Note("R14.guard: %d sites, %d proved by guard forms, %d argued exceptions", n, proved, excepted)
+}
+
+// structParamsClass recognises, wherever the field walker's code lives, the two index forms the
+// reference tree's exceptions argue for: the per-field constraint list (a []fieldParameters, one
+// entry per struct field, built by the tag loop) indexed by the counter of a loop bounded by
+// NumField(), or by the CHOICE index after it was compared with NumField().
+func structParamsClass(f *ssa.Function, s panicSite) string {
+	var base, idx ssa.Value
+	switch x := s.in.(type) {
+	case *ssa.IndexAddr:
+		base, idx = x.X, x.Index
+	case *ssa.Index:
+		base, idx = x.X, x.Index
+	default:
+		return ""
+	}
+	sl, ok := base.Type().Underlying().(*types.Slice)
+	if !ok || derefNamed(sl.Elem()) != pAper+".fieldParameters" {
+		return ""
+	}
+	isNumField := func(v ssa.Value) bool {
+		for i := 0; i < 3; i++ {
+			if c, isC := v.(*ssa.Convert); isC {
+				v = c.X
+				continue
+			}
+			break
+		}
+		call, isCall := v.(*ssa.Call)
+		if !isCall {
+			return false
+		}
+		n := core.CalleeName(call.Common())
+		return n == "reflect.Value.NumField" || (call.Call.IsInvoke() && call.Call.Method.Name() == "NumField")
+	}
+	// (a) the counter of `for i := 0; i < NumField(); i++`
+	if ph, isPhi := idx.(*ssa.Phi); isPhi {
+		if l := countedLoopOf(ph.Block()); l != nil && l.iv == ph && !l.rng && isNumField(l.bound) {
+			return "i < NumField() (loop bound) and the constraint list has one entry per struct field (moved form of the reference tree's argued site structParams[i])"
+		}
+	}
+	// (b) the CHOICE index: (a phi of 0 and) getChoiceIndex's result, compared with NumField() on a dominating branch
+	fromChoice := func(v ssa.Value) bool {
+		ex, isEx := v.(*ssa.Extract)
+		if !isEx || ex.Index != 0 {
+			return false
+		}
+		call, isCall := ex.Tuple.(*ssa.Call)
+		return isCall && core.CalleeName(call.Common()) == pAper+".perBitData.getChoiceIndex"
+	}
+	_ = fromChoice
+	// the index cannot be negative: constants >= 0, loop counters that start >= 0 and only grow,
+	// the CHOICE index (an unsigned value + 1), and results of package functions that return only such values
+	var nonNeg func(v ssa.Value, seen map[ssa.Value]bool, depth int) bool
+	nonNeg = func(v ssa.Value, seen map[ssa.Value]bool, depth int) bool {
+		if seen[v] {
+			return true // a loop-carried value: the other edges decide
+		}
+		seen[v] = true
+		if k, isK := core.ConstInt(v); isK {
+			return k >= 0
+		}
+		switch x := v.(type) {
+		case *ssa.Phi:
+			for _, e := range x.Edges {
+				if !nonNeg(e, seen, depth) {
+					return false
+				}
+			}
+			return true
+		case *ssa.BinOp:
+			if x.Op == token.ADD {
+				return nonNeg(x.X, seen, depth) && nonNeg(x.Y, seen, depth)
+			}
+		case *ssa.Convert:
+			if b, isB := x.X.Type().Underlying().(*types.Basic); isB && b.Info()&types.IsUnsigned != 0 && widthOfBasic(b) < 64 {
+				return true
+			}
+			return nonNeg(x.X, seen, depth)
+		case *ssa.Extract:
+			if call, isCall := x.Tuple.(*ssa.Call); isCall && x.Index == 0 && core.CalleeName(call.Common()) == pAper+".perBitData.getChoiceIndex" {
+				return true
+			}
+		case *ssa.Call:
+			g := x.Call.StaticCallee()
+			if g == nil || fnPkgPath(g) != pAper || depth >= 2 || len(g.Blocks) == 0 {
+				return false
+			}
+			for _, b := range g.Blocks {
+				if r, isR := b.Instrs[len(b.Instrs)-1].(*ssa.Return); isR {
+					if len(r.Results) != 1 || !nonNeg(r.Results[0], map[ssa.Value]bool{}, depth+1) {
+						return false
+					}
+				}
+			}
+			return true
+		}
+		return false
+	}
+	if nonNeg(idx, map[ssa.Value]bool{}, 0) {
+		for _, b := range f.Blocks {
+			iff, isIf := b.Instrs[len(b.Instrs)-1].(*ssa.If)
+			if !isIf || !b.Dominates(s.in.Block()) {
+				continue
+			}
+			bo, isBo := iff.Cond.(*ssa.BinOp)
+			if !isBo || bo.X != idx || !isNumField(bo.Y) {
+				continue
+			}
+			// present >= NumField (or >) leaves on the true side: the site is on the false side
+			if (bo.Op == token.GEQ || bo.Op == token.GTR) && (b.Succs[1] == s.in.Block() || b.Succs[1].Dominates(s.in.Block())) {
+				return "the (non-negative) alternative index is refused when it is >= NumField() and the constraint list has one entry per struct field (moved form of the reference tree's argued site structParams[present])"
+			}
+		}
+	}
+	return ""
+}
+
+func widthOfBasic(b *types.Basic) int {
+	switch b.Kind() {
+	case types.Uint8, types.Int8:
+		return 8
+	case types.Uint16, types.Int16:
+		return 16
+	case types.Uint32, types.Int32:
+		return 32
+	}
+	return 64
 }
 
 func r14zero(c *core.Ctx) {
